@@ -52,13 +52,17 @@ NEEDS2 = {
 
 def main():
     import os
-    if os.environ.get("SEED_ROUND") == "2":
-        global NEEDS
+    rnd = os.environ.get("SEED_ROUND", "1")
+    global NEEDS
+    if rnd == "2":
         NEEDS = NEEDS2
+    elif rnd != "1":
+        # later rounds keep their table beside this script: {"C01": [needs_to_manifest, strengthened], ..}
+        NEEDS = json.load(open("/verif/tools/seed_needs_r%s.json" % rnd))
     base = subprocess.run(["git", "-C", "/repo", "log", "--format=%h", "-1"], capture_output=True, text=True).stdout.strip()
     ids = sys.argv[1:] or sorted(NEEDS)
     for sid in ids:
-        root = "/tmp/seed2" if os.environ.get("SEED_ROUND") == "2" else "/tmp/seed"
+        root = "/tmp/seed" if rnd == "1" else "/tmp/seed%s" % rnd
         w = "%s/%s" % (root, sid)
         patch = os.path.join(w, "patch_rebased.diff") if os.path.exists(os.path.join(w, "patch_rebased.diff")) else os.path.join(w, "patch.diff")
         p = subprocess.run(["python3", "/verif/tools/seedrun.py", patch], capture_output=True, text=True)
@@ -72,7 +76,7 @@ def main():
                 cur = l.split()[0]
             elif cur and l.strip().startswith("rule=") and cur not in first:
                 first[cur] = l.strip()[:300]
-        dst = "/verif/seeded/%s%s" % (sid, "-r2" if os.environ.get("SEED_ROUND") == "2" else "")
+        dst = "/verif/seeded/%s%s" % (sid, "" if rnd == "1" else "-r%s" % rnd)
         shutil.rmtree(dst, ignore_errors=True)
         os.makedirs(dst)
         shutil.copy(patch, os.path.join(dst, "patch.diff"))
